@@ -455,6 +455,26 @@ class _Desugar(ast.NodeTransformer):
                         body = [ast.If(test=c, body=body, orelse=[])]
                     body = [ast.For(target=g.target, iter=g.iter, body=body, orelse=[], type_comment=None)]
                 return self.visit(_loc(body[0], st))
+            # D.setdefault(k, v) as a statement  ->  if k not in D: D[k] = v       (k and an effectful v are evaluated first, once)
+            if isinstance(v.func, ast.Attribute) and v.func.attr == "setdefault" and len(v.args) == 2 and not v.keywords \
+                    and not any(isinstance(x, (ast.Call, ast.Starred)) for x in ast.walk(v.func.value)):
+                pre = []
+                k_, val = v.args
+                if any(isinstance(x, ast.Call) for x in ast.walk(k_)):
+                    nm = "_sd_key_%d" % getattr(st, "lineno", 0)
+                    pre.append(ast.Assign(targets=[ast.Name(id=nm, ctx=ast.Store())], value=k_))
+                    k_ = ast.Name(id=nm, ctx=ast.Load())
+                if any(isinstance(x, ast.Call) for x in ast.walk(val)):
+                    nm = "_sd_val_%d" % getattr(st, "lineno", 0)
+                    pre.append(ast.Assign(targets=[ast.Name(id=nm, ctx=ast.Store())], value=val))
+                    val = ast.Name(id=nm, ctx=ast.Load())
+                new = ast.If(test=ast.Compare(left=copy.deepcopy(k_), ops=[ast.NotIn()], comparators=[copy.deepcopy(v.func.value)]),
+                             body=[ast.Assign(targets=[ast.Subscript(value=copy.deepcopy(v.func.value), slice=copy.deepcopy(k_), ctx=ast.Store())], value=val)], orelse=[])
+                out = []
+                for x in pre + [new]:
+                    r = self.visit(_loc(x, st))
+                    out += r if isinstance(r, list) else [r]
+                return out
             # f(a, x if c else y)  ->  if c: f(a, x) else: f(a, y)      (a call statement with one conditional argument)
             slots = [("a", i) for i, a in enumerate(v.args) if isinstance(a, ast.IfExp)] + [("k", i) for i, k in enumerate(v.keywords) if isinstance(k.value, ast.IfExp)]
             if len(slots) == 1:
@@ -1192,7 +1212,10 @@ def _trivial_members(P, anchors):
                 continue
             params = [a.arg for a in fn.args.args]
             decos = [d.id for d in fn.decorator_list if isinstance(d, ast.Name)]
-            if len(decos) != len(fn.decorator_list) or any(d != "property" for d in decos) or params[:1] != ["self"] or fn.args.vararg or fn.args.kwarg \
+            static = decos == ["staticmethod"] and len(fn.decorator_list) == 1 and "self" not in params
+            if static:
+                params = ["self"] + params          # no receiver: the expression below must not mention self
+            if len(decos) != len(fn.decorator_list) or any(d != "property" for d in decos if not static) or params[:1] != ["self"] or fn.args.vararg or fn.args.kwarg \
                     or fn.args.kwonlyargs or fn.args.defaults or ("property" in decos and params != ["self"]):
                 continue
             body = [s for s in fn.body if not (isinstance(s, ast.Expr) and isinstance(s.value, ast.Constant))]
@@ -1202,6 +1225,8 @@ def _trivial_members(P, anchors):
             if any(isinstance(x, (ast.Lambda, ast.Yield, ast.Await, ast.NamedExpr)) for x in ast.walk(e)):
                 continue
             if any(isinstance(x, ast.Attribute) and x.attr == name for x in ast.walk(e)):
+                continue
+            if static and any(isinstance(x, ast.Name) and x.id == "self" for x in ast.walk(e)):
                 continue
             members.setdefault(name, []).append((ci, fn, e, "property" in decos, params[1:]))
     if not members:
